@@ -101,3 +101,15 @@ Theorem C15_after_saved_form : forall sg sgf d segs,
     observable sg v (mkenv c1 nm mc stt dd) add = observable sg v (mkenv c2 nm mc stt dd) add.
 Proof. exact C15_after_saved_form_thm. Qed.
 Print Assumptions C15_after_saved_form.
+
+(* The last-state text is not only an arbitrary input: the firmware writes it itself.  `state_of c log` is the text
+   after a history `log` of case-chosen messages, supla_esp_wifi_station_connect and station status polls
+   (supla_esp_wifi_check_status), with the messages taken from the GENERATED call sites (Gen/StateSites.v: a call site
+   of supla_esp_set_state whose argument is WIFI_PWD / Password / AuthKey, or of unknown shape, is a translator error;
+   `wifi_sites_public` re-proves on every run that each remaining site formats at most a public text field).
+   Secrecy including that sink: two low-equivalent configurations produce the same last-state text and the same pages. *)
+Theorem C15_noninterference_firmware_state : forall sg v c1 c2 nm mc log d add,
+  wf_cfg c1 -> low_equiv c1 c2 ->
+  observable sg v (mkenv c1 nm mc (state_of c1 log) d) add = observable sg v (mkenv c2 nm mc (state_of c2 log) d) add.
+Proof. exact C15_noninterference_firmware_state_thm. Qed.
+Print Assumptions C15_noninterference_firmware_state.
